@@ -108,6 +108,8 @@ func runC10(c *Check, tier string) {
 	ruleR10d(c, li)
 	ruleR10e(c, li)
 	ruleR10f(c, li)
+	ruleSingleRelease(c, li, "R10g")
+	ruleWaiterReprobes(c, li, "R10h")
 }
 
 func ruleR10a(c *Check, li *lockerInfo) {
